@@ -144,6 +144,61 @@ func harvestStrings(w *World, pkg *ssa.Package, tests bool) []string {
 	return out
 }
 
+// apiPool: candidate version strings = literals of the package's tests and testdata, plus
+// cheap syntactic variants (zero-padded components, huge digit runs, source keywords glued on).
+func apiPool(w *World, pkg *ssa.Package, extra []string) []string {
+	tests := harvestStrings(w, pkg, true)
+	srcLits := harvestStrings(w, pkg, false)
+	seen := map[string]bool{}
+	var out []string
+	add := func(s string) {
+		if !seen[s] && len(s) <= 60 {
+			seen[s] = true
+			out = append(out, s)
+		}
+	}
+	for _, s := range tests {
+		add(s)
+	}
+	for _, s := range extra {
+		add(s)
+	}
+	bases := []string{"1", "1.0", "1.0.0", "1.2.3", "v1.0.1", "2.0", "1.0.0-1"}
+	var kws []string
+	for _, k := range srcLits {
+		if len(k) >= 1 && len(k) <= 10 && !strings.ContainsAny(k, " %\n\t") {
+			kws = append(kws, k)
+		}
+	}
+	digits := []string{"00000000000000000000001", "2", "99999999999999999999", "01", "1", "18446744073709551616", "0", "00"}
+	for _, b := range bases {
+		for _, d := range digits {
+			add(d)
+			add(b + "." + d)
+			add(d + "." + b)
+			add(b + "-" + d)
+		}
+		for _, k := range kws {
+			for _, sep := range []string{"", "-", ".", "_", "~", "+"} {
+				add(b + sep + k)
+				add(b + sep + k + "1")
+			}
+		}
+	}
+	// zero-padded variants of test literals
+	for _, s := range tests {
+		if len(s) == 0 || len(s) > 20 {
+			continue
+		}
+		for i := 0; i < len(s); i++ {
+			if s[i] >= '0' && s[i] <= '9' && (i == 0 || s[i-1] == '.' || s[i-1] == '-') {
+				add(s[:i] + "0" + s[i:])
+			}
+		}
+	}
+	return out
+}
+
 func goStringSlice(ss []string) string {
 	var b strings.Builder
 	b.WriteString("[]string{")
@@ -253,7 +308,7 @@ func lawHarness(w *World, fn *ssa.Function, cl *Clause, alpha string, maxLen int
 				if alpha != "" {
 					src = fmt.Sprintf("strs := verifEnum(%q, %d)\n", alpha, maxLen)
 				} else {
-					src = "strs := " + goStringSlice(append(harvestStrings(w, pkg, true), extraPool...)) + "\n"
+					src = "strs := " + goStringSlice(apiPool(w, pkg, extraPool)) + "\n"
 				}
 				src += `	var pool []*Version
 	e := &Ecosystem{}
@@ -264,7 +319,7 @@ func lawHarness(w *World, fn *ssa.Function, cl *Clause, alpha string, maxLen int
 			pool = append(pool, v)
 		}
 	}
-	if len(pool) > 400 { pool = pool[:400] }
+	if len(pool) > 420 { step := len(pool)/420 + 1; var nx []*Version; for i := 0; i < len(pool); i += step { nx = append(nx, pool[i]) }; pool = nx }
 	cmp := func(a, b *Version) int { return a.Compare(b) }
 	show := func(a *Version) string { return fmt.Sprintf("%q", a.String()) }
 `
@@ -381,13 +436,24 @@ func searchCounterexample(w *World, prop string, r vcResult) *Counterexample {
 		if ct == nil {
 			return nil
 		}
+		var last *Counterexample
+		hasReq := false
 		for _, cl := range ct.clauses {
-			if cl.kind == "comparator" {
-				if cx := runLawSearch(w, fn, cl, "", 0, 120*time.Second, nil); cx != nil && cx.Confirmed {
-					return cx
+			if cl.kind == "requires" {
+				hasReq = true
+			}
+		}
+		for _, cl := range ct.clauses {
+			if cl.kind == "comparator" && !(hasReq && fn.Signature.Recv() == nil) {
+				if cx := runLawSearch(w, fn, cl, "", 0, 120*time.Second, nil); cx != nil {
+					if cx.Confirmed {
+						return cx
+					}
+					last = cx
 				}
 			}
 		}
+		defer func() { _ = last }()
 		// fall back to the package's API-level Compare
 		if cmpFn := w.funcs[shortPkg(fn.Pkg.Pkg)+".(*Version).Compare"]; cmpFn != nil && cmpFn != fn {
 			if cct := w.contractOf(cmpFn); cct != nil {
@@ -398,6 +464,7 @@ func searchCounterexample(w *World, prop string, r vcResult) *Counterexample {
 				}
 			}
 		}
+		return last
 	}
 	if f := propFalsifiers[prop]; f != nil {
 		return f(w, fn, r)
